@@ -452,7 +452,7 @@ def run(ctx):
         if quick:
             runs.append(("fresh", "-seed %d -n 14 -img 40 -exhaustive 1 -scen 12 -ndec 400" % ctx.seed))
         else:
-            runs.append(("fresh", "-seed %d -n 110 -img 160 -exhaustive 10 -big 2 -scen 100 -ndec 6000" % ctx.seed))
+            runs.append(("fresh", "-seed %d -n 80 -img 120 -exhaustive 8 -big 2 -scen 80 -ndec 4000" % ctx.seed))
 
     all_mism, all_fail, total = [], [], 0
     hist_all, stats_all, nontriv, samples = {}, {}, set(), []
